@@ -36,7 +36,13 @@ def gen_cases(tier, seed):
     for i in range(30 if tier == "quick" else 400):
         rng = gen.rng_for("C09wr", seed, i)
         nodes, edges = gen.cyc_any(rng, 9) if rng.random() < 0.7 else gen.dag_any(rng, 9)
-        cases.append({"kind": "width", "spec": gen.spec(nodes, edges), "maxsub": 2 if len(edges) > 7 else 3})
+        c = {"kind": "width", "spec": gen.spec(nodes, edges), "maxsub": 2 if len(edges) > 7 else 3}
+        if rng.random() < 0.4 and len(nodes) >= 3:
+            # additional start/end nodes (inner nodes too) and interleaved convention-free queries on the same graph object
+            c["starts"] = [rng.choice(nodes)] if rng.random() < 0.7 else []
+            c["ends"] = [rng.choice(nodes)] if rng.random() < 0.7 else []
+        c["interleave"] = rng.choice(["none", "bare-first", "bare-between", "empty-list-between"])
+        cases.append(c)
     n = 500 if tier == "quick" else 5000
     for i in range(n):
         rng = gen.rng_for("C09", seed, i)
@@ -114,28 +120,40 @@ def run_width(case):
     viol = []; obs = collections.Counter()
     G = gen.build(case["spec"])
     cyc = not ref.is_dag(G)
-    r = M.safe_call(fp.stDiGraph, G)
+    starts = case.get("starts") or []; ends = case.get("ends") or []; inter = case.get("interleave", "none")
+    r = M.safe_call(fp.stDiGraph, G, additional_starts=list(starts), additional_ends=list(ends))
     if r[0] != "ok":
         return {"viol": [], "obs": {}, "nontrivial": False}
-    st = r[1]; sd = None if cyc else fp.stDAG(G)
+    st = r[1]; sd = None if cyc else fp.stDAG(G, additional_starts=list(starts), additional_ends=list(ends))
+    S_ = list(dict.fromkeys(ref.sources(G) + list(starts))); T_ = list(dict.fromkeys(ref.sinks(G) + list(ends)))
     E = list(G.edges)
+    if inter == "bare-first":
+        for obj in (st, sd):
+            if obj is not None:
+                M.safe_call(obj.get_width); obs["c09.convention_free_queries"] += 1
     for size in range(0, case["maxsub"] + 1):
         for ign in itertools.combinations(E, size):
             if len(ign) == len(E):
                 continue
             try:
-                w = ref.walk_cover_width(G, ignore=set(ign))
+                w = ref.walk_cover_width(G, S_, T_, ignore=set(ign))
             except ref.RefTimeout:
                 continue
+            if w is None:
+                continue       # some edge lies on no admissible walk: outside the domain of the statement
             for obj, name in ((st, "Cycles" if cyc else "stDiGraph-on-DAG"), (sd, "")):
                 if obj is None:
                     continue
+                if inter == "bare-between":
+                    M.safe_call(obj.get_width); obs["c09.convention_free_queries"] += 1
+                elif inter == "empty-list-between":
+                    M.safe_call(obj.get_width, edges_to_ignore=[]); obs["c09.convention_free_queries"] += 1
                 g = M.safe_call(obj.get_width, edges_to_ignore=list(obj.source_sink_edges) + list(ign))
                 obs["c09.width_compared"] += 1
                 if g[0] != "ok":
                     viol.append({"sig": f"C09/get_width{name}/raises/{g[1]}/ignore", "msg": f"{g[2]}; edges {E} ignore {ign}"})
                 elif g[1] != w:
-                    viol.append({"sig": f"C09/get_width{name}/differs-from-minimum-cover" + ("/ignore" if ign else ""), "msg": f"get_width = {g[1]}, reference minimum cover {w}; edges {E} ignore {list(ign)}"})
+                    viol.append({"sig": f"C09/get_width{name}/differs-from-minimum-cover" + ("/ignore" if ign else "") + ("/starts-ends" if starts or ends else ""), "msg": f"get_width = {g[1]}, reference minimum cover {w}; edges {E} ignore {list(ign)} starts {starts} ends {ends} interleaved queries: {inter}"})
             if len(viol) > 3:
                 break
     seen = set(); out = []
